@@ -217,3 +217,40 @@ def r13_3(ctx):
                     ok = not lv and len(jn) == 1 and jn[0].args == (Sym("nwk"), Sym("ieee"), Sym("parent"))
                 ctx.require(ok and p.terminal == "return", f"triage:{s.name}:{d.name}", f"status {s.name}, decision {d.name}: leaves {[e.args for e in lv]}, "
                             f"joins {[e.args for e in jn]}, {p.terminal}", func=f, trace=p.trace(10))
+
+
+@rule("R13.4", ["C13"], "T-FUN", floor=2)
+def r13_4(ctx):
+    """The unicast destination is the coordinator's address *at the time of the callback*: two unicast callbacks
+    with the own network address changed in between (re-assigned address, node info reloaded) yield packets addressed
+    to the first and then to the second address - a remembered destination would go stale."""
+    repo = ctx.repo
+    f = repo.func(f"{APP}:ControllerApplication.ezsp_callback_handler")
+    cls = app_cls(ctx)
+    mt = repo.cls(NAMED, "EmberIncomingMessageType").members()["INCOMING_UNICAST"]
+    for v in (8, 14):
+        fl = rx_fields(ctx, v, "incomingMessageHandler", ROLES_INCOMING)
+        vals = [mt if r == "TYPE" else Sym(f"role:{r}") for _, r, _ in fl]
+        px = PX(repo, inline=same_class(stop=("handle_route_error", "handle_route_record", "_handle_id_conflict", "connection_lost", "_handle_frame_sent")))
+        px.inline.root = f
+
+        def entry():
+            node = Obj(TypeRef("NodeInfo"), {"nwk": Sym("own1")}, tag="node_info")
+            state = Obj(TypeRef("State"), {"node_info": node, "counters": Sym("counters")}, tag="state")
+            me = self_obj(cls, {"_ezsp": Obj(TypeRef("EZSP"), {"ezsp_version": v}, tag="self._ezsp"), "state": state})
+            px.top_frame = None
+            px.call_function(f, me, ["incomingMessageHandler", list(vals)], {}, None)
+            node.fields["nwk"] = Sym("own2")
+            px.call_function(f, me, ["incomingMessageHandler", list(vals)], {}, None)
+            return None
+
+        for p in px._run(entry):
+            ctx.paths += 1
+            pr = [e for e in p.events if e.kind == "call" and e.what == "self.packet_received"]
+            dsts = []
+            for e in pr:
+                pk = find_event(p, e.args[0]) if e.args else None
+                d = find_event(p, pk.kwargs.get("dst")) if pk is not None else None
+                dsts.append(d.kwargs.get("address") if d is not None else None)
+            ctx.require(p.terminal == "return" and dsts == [Sym("own1"), Sym("own2")], f"own-address-current:v{v}",
+                        f"v{v}: two unicasts around an own-address change are addressed to {dsts!r}; must be [own1, own2]", func=f, trace=p.trace(16))
